@@ -131,6 +131,8 @@ def work(tier, seed):
         items.append({"kind": "builtin", "which": k})
     items.append({"kind": "seeds"})
     items.append({"kind": "history"})
+    for k in range(4):
+        items.append({"kind": "corners", "which": k})
     return items
 
 
@@ -288,11 +290,102 @@ def run(item, ctx, tier, seed):
                     "sequences": sum(len(menu) ** n for n in range(1, b["max_nb_samples"] + 1))})
         return None
 
+    if item["kind"] == "corners":
+        return _run_corners(item, ctx)
     if item["kind"] == "builtin":
         return _run_builtin(item, ctx, b)
     if item["kind"] == "seeds":
         return _run_seeds(item, ctx, seed)
     return _run_history(item, ctx)
+
+
+def _run_corners(item, ctx):
+    """
+    Replicate patterns that the small menus cannot produce, still composed from sampler o metric o formula:
+    (0,1) one outlying replicate among 19 / 39 copies of the estimate with tiny alpha (BCa beyond the pole of
+          its acceleration term), through the named metric 'fnr' with a threshold keyword;
+    (2,3) replicates one ulp above / below the estimate (the bias correction counts 'theta <= theta_hat' exactly),
+          every sequence of length <= 4 over a menu of four objects.
+    """
+    from score_analysis import BootstrapConfig, Scores
+
+    k = item["which"]
+    if k < 2:
+        src = Scores([0.5, 2.0, 2.0, 3.5, 1.0, 4.0, 0.25, 3.0, 2.25, 1.5], [0.0, 2.0, 1.0], nb_easy_pos=0)
+        out = Scores([0.5, 0.6], [0.0, 1.0]) if k == 0 else Scores([5.0, 6.0, 7.0], [0.0])
+        n = 20 if k == 0 else 40
+        thr = 2.0
+        est = np.array(src.fnr(thr))
+        for where in (0, n // 2, n - 1):
+            seq = [0] * n
+            seq[where] = 1
+            menu = [src, out]
+            want = np.array([float(menu[j].fnr(thr)) for j in seq])
+            for method in ("quantile", "bc", "bca"):
+                for alpha in (1e-6, 1e-3, 0.05):
+                    calls = []
+
+                    def sampler(s, _seq=seq, _c=calls):
+                        _c.append(1)
+                        return menu[_seq[len(_c) - 1]]
+
+                    cfg = BootstrapConfig(nb_samples=n, sampling_method=sampler, bootstrap_method=method)
+                    case = {"kind": "corners", "pattern": f"{n - 1} x the source itself + 1 outlying sample at position {where}",
+                            "metric": "fnr", "threshold": thr, "method": method, "alpha": alpha, "replicate_values": sorted(set(want.tolist()))}
+                    ctx.state()
+                    ctx.nontrivial()
+                    ok, ci = guarded(ctx, "bootstrap_ci", case, lambda: src.bootstrap_ci("fnr", alpha, cfg, threshold=thr))
+                    ctx.tick()
+                    if not ok:
+                        continue
+                    wref, skip = ref_ci(want, est, alpha, method)
+                    if skip.any():
+                        ctx.add("ci_skipped_ill_conditioned")
+                        continue
+                    if not np.allclose(np.asarray(ci, dtype=float), wref, rtol=0, atol=1e-9):
+                        ctx.fail("ci-equals-formula-on-replicates", case, observed=ci, expected=wref)
+        ctx.sample({"kind": "corners", "which": k, "nb_samples": n})
+        return None
+    base = 0.39999999999999997 if k == 2 else 1.0
+    src = Scores([0.5, 2.0], [0.0, 1.0])
+    menu = [Scores([0.5, 2.0], [0.0, 1.0]) for _ in range(4)]
+    table = {id(src): base, id(menu[0]): math.nextafter(base, math.inf), id(menu[1]): base, id(menu[2]): math.nextafter(base, -math.inf),
+             id(menu[3]): base / 2}
+
+    def metric(s, scale=1.0):
+        return table[id(s)] * scale
+
+    est = np.array(base * 4.0)
+    for n in range(1, 5):
+        for seq in itertools.product(range(4), repeat=n):
+            want = np.array([table[id(menu[j])] * 4.0 for j in seq])
+            for method in ("bc", "bca"):
+                for alpha in (0.05, 0.5):
+                    calls = []
+
+                    def sampler(s, _seq=seq, _c=calls):
+                        _c.append(1)
+                        return menu[_seq[len(_c) - 1]]
+
+                    cfg = BootstrapConfig(nb_samples=n, sampling_method=sampler, bootstrap_method=method)
+                    case = {"kind": "corners", "pattern": "replicates one ulp around the estimate", "estimate": float(est), "sequence": list(seq),
+                            "replicates": want.tolist(), "method": method, "alpha": alpha}
+                    ctx.state()
+                    if 0 in seq or 2 in seq:
+                        ctx.nontrivial()
+                    ok, ci = guarded(ctx, "bootstrap_ci", case, lambda: src.bootstrap_ci(metric, alpha, cfg, scale=4.0))
+                    ctx.tick()
+                    if not ok:
+                        continue
+                    wref, skip = ref_ci(want, est, alpha, method)
+                    if skip.any():
+                        ctx.add("ci_skipped_ill_conditioned")
+                        continue
+                    ctx.outcome((k, tuple(seq), method, alpha))
+                    if not np.allclose(np.asarray(ci, dtype=float), wref, rtol=0, atol=1e-12):
+                        ctx.fail("ci-equals-formula-on-replicates", case, observed=ci, expected=wref)
+    ctx.sample({"kind": "corners", "which": k, "menu": [table[id(m)] for m in menu]})
+    return None
 
 
 def _run_builtin(item, ctx, b):
